@@ -106,10 +106,13 @@ def make_constant(context, value, like_expr):
     return Expr(context, "constant", (value, normalize_like(like_expr)))
 
 
-def make_symbol(context, name, typ, _tmp_counter=[0]):
+def make_symbol(context, name, typ):
     if name is None:
-        name = f"_tmp{_tmp_counter[0]}"
-        _tmp_counter[0] += 1
+        # the counter is local to the context, otherwise the names of
+        # temporary symbols would depend on what was traced before
+        # within the same process
+        name = f"_tmp{context._tmp_counter}"
+        context._tmp_counter += 1
     # All symbols must have a type.
     typ = Type.fromobject(context, typ)
     return Expr(context, "symbol", (name, typ))
